@@ -81,6 +81,27 @@ func (p pieceRT) RoundTrip(r *http.Request) (*http.Response, error) {
 	return resp, err
 }
 
+// chunkRT sends every request body with an undeclared length (chunked transfer encoding), as clients and
+// proxies that stream their uploads do.
+type chunkRT struct{ rt http.RoundTripper }
+
+func (c chunkRT) RoundTrip(r *http.Request) (*http.Response, error) {
+	r2 := r.Clone(r.Context())
+	if r.Body != nil {
+		r2.Body = struct{ io.ReadCloser }{r.Body}
+		r2.ContentLength = -1
+		r2.GetBody = nil
+	}
+	return c.rt.RoundTrip(r2)
+}
+
+// Chunked makes the carrier's client send its request bodies chunked.
+func (c *Carrier) Chunked() *Carrier {
+	c.Name += "-chunked"
+	c.CC = &httpgrpc.Channel{Transport: chunkRT{c.Transport}, BaseURL: c.URL}
+	return c
+}
+
 // InPieces makes both directions of an HTTP carrier deliver their bodies at most n bytes per Read.
 func (c *Carrier) InPieces(n int) *Carrier {
 	c.Name += fmt.Sprintf("-pieces%d", n)
